@@ -37,7 +37,8 @@ class C10(Prop):
             "(the default ECOS is not installed: environment fact E1). non-trivial = at least one target outside the gamut (scales != 1) or the 'max' objective")
     assumptions = ["solver opaque: judged by an LP/QP weak-duality certificate (HiGHS, untrusted) against the formulation model; the default solver ECOS is not installed in this "
                    "sandbox, so solver=cp.CLARABEL is passed through the documented keyword (recorded in the evidence, not a violation of the property)",
-                   "constraints asserted to delta*(1+1e-3)+1e-7, optimality of the scale objective to 1e-4"]
+                   "constraints asserted to delta*(1+1e-3)+1e-7, optimality of the scale objective to 1e-4",
+                   "target sets of 17-50 samples (thorough tier) are judged by the spec predicate (LP re-solve) only, not by the Coq verdict (T)"]
     modelled = "lsq_linear.py: lsq_linear_adaptive (Bsum, neutral_points, Brad; the two max-abs constraint groups as linear rows; bounds; 'unity' / 'max' objectives); estimator.fit_adaptive dispatch"
 
     def sizes(self, tier):
@@ -102,15 +103,27 @@ class C10(Prop):
         sw = np.broadcast_to(np.atleast_1d(np.asarray(case["scale_w"], dtype=float)), (2,))
         z = np.concatenate([np.asarray(out["X"]).ravel(), out["scales"]])
         N = S * n
+        # reference point (untrusted): an accurate optimum of the same programme; the duality bound is evaluated there
+        import cvxpy as cp
+        z0 = z; ref = None
+        try:
+            zz = cp.Variable(N + 2); fin = np.isfinite(zub)
+            ob = cp.sum_squares(cp.multiply(sw, zz[N:] - 1)) if case["objective"] != "max" else -(sw @ zz[N:])
+            pr = cp.Problem(cp.Minimize(ob), [G @ zz <= h, zz >= zlb, zz[fin] <= zub[fin]])
+            pr.solve(solver="CLARABEL", tol_gap_abs=1e-11, tol_gap_rel=1e-11, tol_feas=1e-11)
+            if pr.status in ("optimal", "optimal_inaccurate") and zz.value is not None:
+                z0 = np.maximum(np.asarray(zz.value, dtype=float), zlb); z0 = np.where(fin, np.minimum(z0, zub), z0); ref = float(pr.value)
+        except Exception:  # noqa
+            pass
         g = np.zeros(N + 2)
         if case["objective"] == "max":
             g[N:] = -sw
             obj = float(-sw @ z[N:])
         else:
-            g[N:] = 2 * sw ** 2 * (z[N:] - 1)
+            g[N:] = 2 * sw ** 2 * (z0[N:] - 1)
             obj = float(((sw * (z[N:] - 1)) ** 2).sum())
-        lam, ys, ss = dualcert.best_cert(g, z, zlb, zub, G, h, [])
-        case["_p"] = dict(sys=sys, Ap=Ap, bp=bp, G=G, h=h, zlb=zlb, zub=zub, z=z, sw=sw, cert=(lam, ys, ss), obj=obj, neutral=neutral, N=N)
+        lam, ys, ss = dualcert.best_cert(g, z0, zlb, zub, G, h, [])
+        case["_p"] = dict(z0=z0, ref=ref, sys=sys, Ap=Ap, bp=bp, G=G, h=h, zlb=zlb, zub=zub, z=z, sw=sw, cert=(lam, ys, ss), obj=obj, neutral=neutral, N=N)
         return case["_p"]
 
     def infeasible(self, case):
@@ -133,12 +146,14 @@ class C10(Prop):
             return None          # no feasible (X, scales) exists: outside the property's premise
         if "error" in out:
             raise ValueError("raised %s: %s" % (out["error"], out.get("msg")))
+        if len(case["B"]) > 16:
+            return None          # 17-50 samples: hundreds of constraint rows are beyond what the Coq VM evaluates in reasonable time; judged by the spec predicate only (T)
         p = self.prep(case, out); sys = p["sys"]; m = sys["m"]
         tolf = max(case["d1"], case["dr"]) * 1e-3 + 1e-7
-        return "(Adaptive.Build_acase %s %s %s %s %s %s %s %s %s %s %s %s %s %s %s %s %s %s)" % (
+        return "(Adaptive.Build_acase %s %s %s %s %s %s %s %s %s %s %s %s %s %s %s %s %s %s %s)" % (
             kmat_lit(sys["K"], m), qm(sys["A"].tolist()), cnat(sys["n"]), qv(sys["lb"].tolist()), qv(sys["ub"].tolist()),
             qv(base_vec(sys["baseline"], m).tolist()), qv(p["neutral"].tolist()), qm(case["B"]), q(case["d1"]), q(case["dr"]), qv(p["sw"].tolist()),
-            cbool(case["objective"] == "max"), qm(out["X"]), qv(out["scales"]), qm(out["Bpred"]), dualcert.cert_lit(*p["cert"]), q(1e-4), q(tolf))
+            cbool(case["objective"] == "max"), qm(out["X"]), qv(out["scales"]), qv(p["z0"].tolist()), qm(out["Bpred"]), dualcert.cert_lit(*p["cert"]), q(1e-4), q(tolf))
 
     def spec_violation(self, case, out):
         if "error" in out and self.infeasible(case):
